@@ -566,6 +566,7 @@ int main(int argc, char **argv) {
     unsigned fline = 0;
     if (DISubprogram *SP = F.getSubprogram()) {
       ffile = SP->getFilename().str();
+      if (!ffile.empty() && ffile[0] != '/' && !SP->getDirectory().empty()) ffile = SP->getDirectory().str() + "/" + ffile;
       fline = SP->getLine();
     }
     out << ",\"file\":" << C.fileId(ffile) << ",\"line\":" << fline;
@@ -692,6 +693,7 @@ int main(int argc, char **argv) {
           out << ",\"line\":" << DLc.getLine() << ",\"col\":" << DLc.getCol();
           if (auto *Sc = dyn_cast_or_null<DIScope>(DLc.getScope())) {
             std::string fn = Sc->getFilename().str();
+            if (!fn.empty() && fn[0] != '/' && !Sc->getDirectory().empty()) fn = Sc->getDirectory().str() + "/" + fn;
             if (fn != ffile) out << ",\"file\":" << C.fileId(fn);
           }
           if (DLc.getInlinedAt()) {
